@@ -121,12 +121,17 @@ class Subscription(OneShotTask, DebugContents):
         # break the object reference
         self.obj_ref = None
 
-    def renew_subscription(self, lifetime):
+    def renew_subscription(self, lifetime, confirmed=None):
         if _debug: Subscription._debug("renew_subscription")
 
         # suspend iff scheduled
         if self.isScheduled:
             self.suspend_task()
+
+        # the renewal carries the lifetime and notification mode to use from now on
+        self.lifetime = lifetime
+        if confirmed is not None:
+            self.confirmed = confirmed
 
         # reschedule the task if its not infinite
         if lifetime != 0:
@@ -735,7 +740,7 @@ class ChangeOfValueServices(Capability):
                 self.cancel_subscription(cov)
             else:
                 if _debug: ChangeOfValueServices._debug("    - renew the subscription")
-                cov.renew_subscription(lifetime)
+                cov.renew_subscription(lifetime, confirmed)
         else:
             if cancel_subscription:
                 if _debug: ChangeOfValueServices._debug("    - cancel a subscription that doesn't exist")
@@ -818,7 +823,7 @@ class ChangeOfValueServices(Capability):
                 self.cancel_subscription(cov)
             else:
                 if _debug: ChangeOfValueServices._debug("    - renew the subscription")
-                cov.renew_subscription(lifetime)
+                cov.renew_subscription(lifetime, confirmed)
         else:
             if cancel_subscription:
                 if _debug: ChangeOfValueServices._debug("    - cancel a subscription that doesn't exist")
